@@ -27,6 +27,8 @@
 (* different input dimension); a function-function operation between a     *)
 (* function expecting normalised inputs and one that does not is a Reject. *)
 (* KS / IKS aggregations (exponentials) are outside this module.           *)
+(* The `scale` of an aggregation is a number or a vector with one factor   *)
+(* per selected constraint (AggScale, AggPars, AggVectorScale).            *)
 (***************************************************************************)
 EXTENDS Integers, Sequences, FiniteSets, TLC
 
@@ -160,8 +162,18 @@ FCOps == {"addc", "subc", "mulc", "divc", "offc"} \* function (op) number; offc 
 FAOps == {"adda", "suba", "mula", "diva", "offa"} \* function (op) array of the output dimension
 AggOps == {"aggmax", "aggsq", "aggpos"}
 
-(* selected output indices of an aggregation: p = <<scale, k, i1..ik>>, k = 0: all outputs *)
+(* selected output indices of an aggregation: p = <<scale, k, i1..ik>> \o <<s_1..s_m>>, k = 0: all     *)
+(* outputs.  scale # 0: one number multiplies every selected constraint (no tail).  scale = 0: the     *)
+(* `scale` argument is a VECTOR, one factor per SELECTED constraint (m = number of selected outputs:  *)
+(* gemseo applies `scale` after `orig_val[indices]`), s_l multiplies the l-th selected output.         *)
 AggSel(p, d) == IF p[2] = 0 THEN [i \in 1..d |-> i] ELSE [i \in 1..p[2] |-> p[2 + i] + 1]
+AggVector(p) == p[1] = 0
+AggScale(p, d) == LET k == Len(AggSel(p, d)) IN
+                  IF AggVector(p) THEN [i \in 1..k |-> DI(p[2 + p[2] + i])] ELSE [i \in 1..k |-> DI(p[1])]
+(* the scaled selected constraints s_l g_{i_l}: what aggregate_max takes the maximum of *)
+AggScaled(v, p) == LET sel == AggSel(p, Len(v))  sc == AggScale(p, Len(v)) IN
+                   [i \in 1..Len(sel) |-> DMul(sc[i], v[sel[i]])]
+UniqueMax(sw) == \E i \in 1..Len(sw) : \A l \in 1..Len(sw) : l = i \/ DLess(sw[l], sw[i])
 
 -----------------------------------------------------------------------------
 (* Static type of a tree: inputs n, outputs d, kind (MDOLinearFunction or  *)
@@ -271,19 +283,23 @@ RuleCvx(e0, em, p, x) ==
   [v |-> [r \in 1..d |-> DAdd(em.v[r], DSum([i \in 1..n |-> Term(r, i)]))],
    j |-> [r \in 1..d |-> [i \in 1..n |-> DTerm(r, i)]]]
 
-RuleAgg(op, e, p, n) ==                  \* p = <<scale, k, indices>>
+(* aggregations of the selected constraints g_i (rows of e) with the factors s_i (a number repeated, *)
+(* or the entries of a vector scale):  max_i s_i g_i  with Jacobian  s_imax g_imax';                 *)
+(* sum_i s_i g_i^2  with Jacobian  sum_i 2 s_i g_i g_i';  the same over the positive g_i.            *)
+RuleAgg(op, e, p, n) ==                  \* p = <<scale, k, indices>> (\o vector scale)
   LET sel == AggSel(p, Len(e.v))
-      sc == DI(p[1])
+      sc == AggScale(p, Len(e.v))
       k == Len(sel)
       w == [i \in 1..k |-> e.v[sel[i]]]
-      imax == CHOOSE i \in 1..k : \A l \in 1..k : l = i \/ DLess(w[l], w[i])
-      G(i) == DMul(DI(2), DMul(sc, w[i])) IN
-  CASE op = "aggmax" -> [v |-> << DMul(sc, w[imax]) >>, j |-> << Scale(sc, e.j[sel[imax]]) >>]
+      sw == AggScaled(e.v, p)
+      imax == CHOOSE i \in 1..k : \A l \in 1..k : l = i \/ DLess(sw[l], sw[i])
+      G(i) == DMul(DI(2), DMul(sc[i], w[i])) IN
+  CASE op = "aggmax" -> [v |-> << sw[imax] >>, j |-> << Scale(sc[imax], e.j[sel[imax]]) >>]
     [] op = "aggsq" ->
-         [v |-> << DSum([i \in 1..k |-> DMul(sc, DMul(w[i], w[i]))]) >>,
+         [v |-> << DSum([i \in 1..k |-> DMul(sc[i], DMul(w[i], w[i]))]) >>,
           j |-> << [c \in 1..n |-> DSum([i \in 1..k |-> DMul(G(i), e.j[sel[i]][c])])] >>]
     [] op = "aggpos" ->
-         [v |-> << DSum([i \in 1..k |-> IF DPos(w[i]) THEN DMul(sc, DMul(w[i], w[i])) ELSE DI(0)]) >>,
+         [v |-> << DSum([i \in 1..k |-> IF DPos(w[i]) THEN DMul(sc[i], DMul(w[i], w[i])) ELSE DI(0)]) >>,
           j |-> << [c \in 1..n |-> DSum([i \in 1..k |->
                        IF DPos(w[i]) THEN DMul(G(i), e.j[sel[i]][c]) ELSE DI(0)])] >>]
 
@@ -361,8 +377,7 @@ Adm(t, x) ==
                         /\ Adm(a[1], DV(SubSeqOf(p, 1, n)))
                         /\ Adm(a[1], ConvexMerged(p, n, x))
                         /\ \A i \in 1..n : (p[n + i] = 1) => DInvertible(step[i])
-       [] op = "aggmax" -> LET e == E(a[1], x) sel == AggSel(p, Len(e.v)) k == Len(sel) IN
-                           \E i \in 1..k : \A l \in 1..k : l = i \/ DLess(e.v[sel[l]], e.v[sel[i]])
+       [] op = "aggmax" -> UniqueMax(AggScaled(E(a[1], x).v, p))
        [] OTHER -> TRUE
 
 (* The points at which the k-th subtree of t is evaluated when t is built and evaluated  *)
@@ -407,6 +422,14 @@ Hess(n) == CASE n = 1 -> <<2>> [] n = 2 -> <<2, 1, 1, -2>> [] n = 3 -> <<2, 1, 0
 Space(n) == CASE n = 1 -> <<-1, 2>> [] n = 2 -> <<-1, 0, 2, 4>> [] n = 3 -> <<-1, 0, 1, 2, 4, 1>>
 IdxPars(d) == {<<0>>, <<1, d - 1>>, <<2, 1, 0>>}      \* all outputs, [d-1], [1, 0]
 Scales == {1, 2}
+(* vector scales: one positive factor per selected constraint (k of them), neither constant nor sorted *)
+VecScale(k) == [i \in 1..k |-> IF i % 3 = 1 THEN 1 ELSE IF i % 3 = 2 THEN 3 ELSE 2]
+VecScaleW(k) == [i \in 1..k |-> IF i % 3 = 1 THEN 4 ELSE IF i % 3 = 2 THEN 1 ELSE 2]
+VecScales(k) == {VecScale(k)} \cup (IF Wide THEN {VecScaleW(k)} ELSE {})
+NSel(q, d) == IF q[1] = 0 THEN d ELSE q[1]
+(* parameters of an aggregation over d outputs: scalar scales, then vector scales (leading 0) *)
+AggPars(d) == {<<sc>> \o q : sc \in Scales, q \in IdxPars(d)}
+              \cup UNION {{<<0>> \o q \o s : s \in VecScales(NSel(q, d))} : q \in IdxPars(d)}
 (* <<k, frozen indices, frozen values>>: one frozen input, and for >= 3 inputs two of them, *)
 (* given in increasing and in decreasing index order                                         *)
 RestrPars(n) == (IF Wide THEN {<<1, i, c>> : i \in 0..(n - 1), c \in {2, -1}}
@@ -443,7 +466,7 @@ DenseExt(a) ==
   \cup {Un("taylor1", a, XHat(ty.n))}
   \cup (IF ty.d = 1 /\ ~HasAggMax(a) THEN {Un("taylor2", a, XHat(ty.n) \o Hess(ty.n))} ELSE {})
   \cup {Un("cvx", a, XHatC(ty.n) \o m) : m \in Masks(ty.n)}
-  \cup (IF ty.d >= 2 THEN {Un(o, a, <<sc>> \o q) : o \in AggOps, sc \in Scales, q \in IdxPars(ty.d)} ELSE {})
+  \cup (IF ty.d >= 2 THEN {Un(o, a, q) : o \in AggOps, q \in AggPars(ty.d)} ELSE {})
 
 UnaryExt(a) == IF Ty(a).sp THEN SparseExt(a) ELSE DenseExt(a)
 
@@ -598,12 +621,27 @@ AggPosVsSq ==
     LET e == E(tree[2][1], X)  sel == AggSel(tree[3], Len(e.v)) IN
     (\A i \in 1..Len(sel) : DPos(e.v[sel[i]])) => res = E(<<"aggsq", tree[2], tree[3]>>, X)
 
-(* the maximum dominates every selected output and is one of them *)
+(* the maximum dominates every scaled selected output and is one of them, with its scaled row *)
 AggMaxIsMax ==
   (Done /\ tree[1] = "aggmax") =>
-    LET e == E(tree[2][1], X)  sel == AggSel(tree[3], Len(e.v))  sc == DI(tree[3][1]) IN
-    /\ \A i \in 1..Len(sel) : ~DLess(res.v[1], DMul(sc, e.v[sel[i]]))
-    /\ \E i \in 1..Len(sel) : res.v[1] = DMul(sc, e.v[sel[i]]) /\ res.j[1] = Scale(sc, e.j[sel[i]])
+    LET e == E(tree[2][1], X)  sel == AggSel(tree[3], Len(e.v))  sc == AggScale(tree[3], Len(e.v)) IN
+    /\ \A i \in 1..Len(sel) : ~DLess(res.v[1], DMul(sc[i], e.v[sel[i]]))
+    /\ \E i \in 1..Len(sel) : res.v[1] = DMul(sc[i], e.v[sel[i]]) /\ res.j[1] = Scale(sc[i], e.j[sel[i]])
+
+(* aggregating with a vector scale s is aggregating, with scale 1 and no selection, the function     *)
+(* diag(s) g_sel (the selected constraints, each multiplied by its factor: rule "mula"); for the sums *)
+(* of squares, whose factor multiplies the square, a constant vector is the number.                   *)
+AggVectorScale ==
+  (Done /\ tree[1] \in AggOps /\ AggVector(tree[3])) =>
+    LET e == E(tree[2][1], X)  p == tree[3]  sel == AggSel(p, Len(e.v))  k == Len(sel)
+        es == [v |-> [i \in 1..k |-> e.v[sel[i]]], j |-> [i \in 1..k |-> e.j[sel[i]]]]
+        s == [i \in 1..k |-> p[2 + p[2] + i]]
+        idx == SubSeqOf(p, 2, 2 + p[2]) IN
+    /\ Len(p) = 2 + p[2] + k
+    /\ \A i \in 1..k : s[i] > 0
+    /\ tree[1] = "aggmax" => res = RuleAgg("aggmax", RuleFA("mula", es, s), <<1, 0>>, Len(pt))
+    /\ tree[1] # "aggmax" => \A c \in Scales :
+         RuleAgg(tree[1], e, <<0>> \o idx \o [i \in 1..k |-> c], Len(pt)) = RuleAgg(tree[1], e, <<c>> \o idx, Len(pt))
 
 (* results are normalised dyadics (so that equal numbers are equal values) *)
 Normalised ==
